@@ -5,9 +5,9 @@ package main
 import (
 	"bufio"
 	"context"
-	"os"
 	"fmt"
 	"io"
+	"os"
 	"os/exec"
 	"strconv"
 	"strings"
